@@ -113,17 +113,17 @@ static Tok gen_scalar_tok(Rng &r, char t)
 }
 
 // "a b ... c" or "b ... c": returns text and expected expansion
-static Tok gen_range_tok(Rng &r, bool endless_allowed)
+static Tok gen_range_tok(Rng &r, bool endless_allowed, char forced_t = 0, int force_with_a = -1, int force_endless = -1)
 {
     Tok k;
-    char t = "cihfd"[r.below(5)];
+    char t = forced_t ? forced_t : "cihfd"[r.below(5)];
     k.type = t;
     auto num = [&](double v) -> av_t { av_t a = av::mk(t); switch(t) { case 'c': case 'i': a.val.i = (int32_t)v; break; case 'h': a.val.h = (int64_t)v; break; case 'f': a.val.f = (float)v; break; case 'd': a.val.d = v; break; } return a; };
     auto spell = [&](const av_t &a) -> std::string {
         switch(t) { case 'c': return "'" + esc_string(std::string(1, (char)a.val.i), true) + "'"; case 'i': return fmt("%d", a.val.i); case 'h': return fmt("%lldh", (long long)a.val.h);
                     case 'f': return fmt("%.4f", a.val.f); default: return fmt("%.4fd", a.val.d); } };
-    bool with_a = r.chance(0.6);
-    bool endless = endless_allowed && r.chance(0.4);
+    bool with_a = force_with_a >= 0 ? force_with_a : r.chance(0.6);
+    bool endless = force_endless >= 0 ? force_endless : endless_allowed && r.chance(0.4);
     double d, b;
     int n = (int)r.range(1, 6);                       // number of steps from b to c
     if(t == 'c') { d = with_a ? (double)r.range(1, 3) : 1; b = (double)r.range('A', 'a'); if(!with_a && r.chance(0.5)) d = -1; }
@@ -145,6 +145,47 @@ static Tok gen_range_tok(Rng &r, bool endless_allowed)
     return k;
 }
 
+// "b1 ... c1 b2 ... c2": the last value of the first range is the left neighbour ("a") of the second
+// (upstream's own test: "1 3 ... 11 13 ... 19")
+static Tok gen_range_chain_tok(Rng &r)
+{
+    char t = "cihfd"[r.below(5)];
+    Tok k = gen_range_tok(r, false, t, -1, 0);
+    const XV &last = k.exp.back();
+    double c1 = t == 'f' ? last.v.val.f : t == 'd' ? last.v.val.d : t == 'h' ? (double)last.v.val.h : (double)last.v.val.i;
+    auto num = [&](double v) -> av_t { av_t a = av::mk(t); switch(t) { case 'c': case 'i': a.val.i = (int32_t)v; break; case 'h': a.val.h = (int64_t)v; break; case 'f': a.val.f = (float)v; break; case 'd': a.val.d = v; break; } return a; };
+    auto spell = [&](const av_t &a) -> std::string {
+        switch(t) { case 'c': return "'" + esc_string(std::string(1, (char)a.val.i), true) + "'"; case 'i': return fmt("%d", a.val.i); case 'h': return fmt("%lldh", (long long)a.val.h);
+                    case 'f': return fmt("%.4f", a.val.f); default: return fmt("%.4fd", a.val.d); } };
+    double d = (t == 'f' || t == 'd') ? (double)r.range(1, 6) * 0.25 : (double)r.range(1, 4);
+    if(r.chance(0.5) && t != 'c') d = -d;
+    int n = (int)r.range(1, 5);
+    double b2 = c1 + d, c2 = b2 + n * d;
+    if(t == 'c' && (c2 > 0x7e || b2 < 0x20)) return k;   // stays a single range
+    k.text += " " + spell(num(b2)) + " ... " + spell(num(c2));
+    for(int i = 0; i <= n; ++i) k.exp.push_back(xs(num(b2 + i * d)));
+    k.tags.push_back("range_chain");
+    return k;
+}
+
+// a progression written out value by value ("0 2 3 4 5 6"), optionally behind an unrelated value of its type:
+// plain to scan, but printing the scanned values compresses it
+static Tok gen_spelled_progression_tok(Rng &r)
+{
+    char t = "cih"[r.below(3)];
+    Tok k; k.type = t;
+    auto num = [&](long v) -> av_t { av_t a = av::mk(t); if(t == 'h') a.val.h = v; else a.val.i = (int32_t)v; return a; };
+    auto spell = [&](const av_t &a) -> std::string { return t == 'c' ? "'" + esc_string(std::string(1, (char)a.val.i), true) + "'" : t == 'i' ? fmt("%d", a.val.i) : fmt("%lldh", (long long)a.val.h); };
+    int n = (int)r.range(5, 8);
+    long d = t == 'c' ? 1 : (r.chance(0.6) ? (r.chance(0.5) ? 1 : -1) : (long)r.range(-3, 3));
+    if(!d) d = 1;
+    long b = t == 'c' ? (long)r.range('A', 'a') : (long)r.range(-20, 20);
+    if(r.chance(0.6)) { long u = b + (r.chance(0.5) ? -2 * d - 1 : 5 * d + 3); if(t == 'c') u = 'z'; k.text = spell(num(u)) + " "; k.exp.push_back(xs(num(u))); k.tags.push_back("unrelated_value_before_progression"); }
+    for(int i = 0; i < n; ++i) { k.text += (i ? " " : "") + spell(num(b + i * d)); k.exp.push_back(xs(num(b + i * d))); }
+    k.tags.push_back("spelled_progression");
+    return k;
+}
+
 static Tok gen_tok(Rng &r, int depth, char forced_type = 0, bool in_array = false, bool last_in_array = false);
 
 static Tok gen_array_tok(Rng &r, int depth)
@@ -155,6 +196,20 @@ static Tok gen_array_tok(Rng &r, int depth)
     char t = "ihfdcsSbmrtT"[r.below(12)];
     int n = r.chance(0.1) ? 0 : (int)r.range(1, 5);
     k.text = "[";
+    if(strchr("cihfd", t) && r.chance(0.08)) {
+        // the manual's "[ 0.1 1 ... ]": an endless range whose left neighbour has another type is delta-less
+        int m = (int)r.range(1, 3);
+        for(int i = 0; i < m; ++i) { Tok e = gen_scalar_tok(r, t); k.text += (i ? " " : (r.chance(0.3) ? " " : "")) + e.text; x.elems.insert(x.elems.end(), e.exp.begin(), e.exp.end()); k.tags.insert(k.tags.end(), e.tags.begin(), e.tags.end()); }
+        char t2; do t2 = "cihfd"[r.below(5)]; while(t2 == t);
+        Tok e = gen_range_tok(r, true, t2, 0, 1);
+        k.text += " " + e.text;
+        x.elems.insert(x.elems.end(), e.exp.begin(), e.exp.end());
+        k.text += r.chance(0.3) ? " ]" : "]";
+        k.exp.push_back(x);
+        k.tags.push_back("array");
+        k.tags.push_back("array_endless_range_of_other_type");
+        return k;
+    }
     for(int i = 0; i < n; ++i) {
         bool last = i == n - 1;
         Tok e;
@@ -190,8 +245,9 @@ static Tok gen_tok(Rng &r, int depth, char forced_type, bool in_array, bool last
         return k;
     }
     int q = (int)r.below(20);
+    if(q < 1) return gen_spelled_progression_tok(r);
     if(q < 12) return gen_scalar_tok(r, "ihfdcsStmrbTFNI"[r.below(15)]);
-    if(q < 15) return gen_range_tok(r, false);
+    if(q < 15) return r.chance(0.25) ? gen_range_chain_tok(r) : gen_range_tok(r, false);
     if(q < 17 && depth < 1) return gen_array_tok(r, depth);
     // NxA: A is any element except a range
     Tok a = (depth < 1 && r.chance(0.25)) ? gen_array_tok(r, depth + 1) : gen_scalar_tok(r, "ihfdcsStmrbTFNI"[r.below(15)]);
